@@ -731,6 +731,268 @@ def r12(ctx, rep):
               f"per input row instead of one row: {why}", file=f["file"], line=f["l"], fn=f["path"])
 
 
+def m_guard_free(cond):
+    """the `matches!` in the condition has no `if` guard (a guard narrows what is dropped, which is fine, or widens nothing; it is simply not the reviewed shape)"""
+    return not any(m.get("k") == "macro" and m.get("n") == "matches" and m.get("guard") is not None for m in walk(cond))
+
+
+def r15(ctx, rep):
+    """Where the pipeline is cut into sub-queries is the compiler's choice; that every transform ends up in exactly one of the two parts is not.
+    `split_off_back` pops transforms off the end of the pipeline one at a time. A popped transform is either given back (the cut is in front
+    of it: push-back, then leave the loop) or moved into the part being built; nothing else may happen to it."""
+    from guards import parents
+    rep.rule("C01.R15", "split_off_back: a transform popped off the pipeline is pushed back before the loop is left, or moved into the atomic part "
+             "(only a Select is dropped, it is rebuilt); the part is reversed once; what the rest must provide is what is required and not available", floor=6)
+    syn = ctx.syn
+    f = syn.fn("anchor::split_off_back", crate="prqlc")
+    par = parents(f["body"])
+    loop = None
+    for n in walk(f["body"]):
+        if n.get("k") == "while" and n["c"].get("k") == "let" and n["c"]["e"].get("k") == "mcall" and n["c"]["e"]["m"] == "pop":
+            names = [x["n"] for x in walk(n["c"]["pat"]) if x.get("k") == "p_ident"]
+            if len(names) == 1:
+                loop, src, var = n, show(n["c"]["e"]["r"]), names[0]
+    if loop is None:
+        raise AnchorMissing("split_off_back: `while let Some(t) = <pipeline>.pop()`")
+    loc = dict(file=f["file"], fn=f["path"])
+
+    def is_push(n, recv=None, arg=None):
+        return (n.get("k") == "mcall" and n["m"] == "push" and len(n["a"]) == 1 and (recv is None or show(n["r"]) == recv) and (arg is None or show(n["a"][0]) == arg))
+
+    # (a) every way out of the pop loop other than its exhausted condition gives the transform back first
+    def enclosing_loops(n):
+        out, cur = [], n
+        while id(cur) in par:
+            cur = par[id(cur)]
+            if cur.get("k") in ("while", "loop", "for"):
+                out.append(cur)
+            if cur is loop:
+                break
+        return out
+    n_exits = 0
+    for b in walk(loop["body"]):
+        if b.get("k") not in ("break", "return"):
+            continue
+        loops = enclosing_loops(b)
+        if b["k"] == "break":
+            target = loops[0] if loops else None
+            if b.get("label"):
+                target = next((l for l in loops if l.get("label") == b["label"]), None)
+            if target is not loop:
+                # a break of an inner loop: control stays in the pop loop. It must not skip the statement that keeps the transform:
+                # that is decided in (b) by where the keeping push stands (after the inner loop, at the level of the loop body)
+                rep.check(target is not None, f"pop-loop:inner-break:{b['l'] - loop['l']}" if False else "pop-loop:inner-break", "break with an unknown label", line=b["l"], **loc)
+                continue
+        n_exits += 1
+        blk = par.get(id(b))
+        stmts = blk.get("s", []) if blk and blk.get("k") == "block" else []
+        before = stmts[:next((i for i, x in enumerate(stmts) if x is b), 0)]
+        ok = any(is_push(x, src, var) for x in before)
+        rep.check(ok, f"pop-loop:exit-gives-back:{n_exits}", f"split_off_back leaves its loop (`{show(b)}`) without `{src}.push({var})` in front of it: the transform that was popped "
+                  "is in neither part of the split and disappears from the query", line=b["l"], **loc)
+    # a transform that was given back is not kept as well: after `<src>.push(<var>)` control leaves the pop loop
+    for blk in walk(loop["body"]):
+        if blk.get("k") != "block":
+            continue
+        st = blk.get("s", [])
+        for i, x in enumerate(st):
+            if is_push(x, src, var):
+                nxt = st[i + 1] if i + 1 < len(st) else None
+                leaves = False
+                if nxt is not None and nxt.get("k") == "return":
+                    leaves = True
+                if nxt is not None and nxt.get("k") == "break":
+                    loops = enclosing_loops(nxt)
+                    target = loops[0] if loops else None
+                    if nxt.get("label"):
+                        target = next((l for l in loops if l.get("label") == nxt["label"]), None)
+                    leaves = target is loop
+                rep.check(leaves, "pop-loop:given-back-leaves", f"split_off_back gives the transform back (`{src}.push({var})`) and then does not leave the pop loop "
+                          f"(next: `{show(nxt) if nxt else 'end of block'}`): the transform is in the rest and, a few lines on, in the part being built as well", line=x["l"], **loc)
+    rep.check(n_exits >= 2, "pop-loop:exits", f"expected the loop to be left where a split is required and where a compute cannot be materialised, found {n_exits} exit(s)", line=loop["l"], **loc)
+    # (b) the transform is kept: a push of it into another vector at the level of the loop body, conditional at most on its not being a Select
+    keeps = []
+    for st in loop["body"].get("s", []):
+        for n in walk(st):
+            if is_push(n, None, var) and show(n["r"]) != src:
+                keeps.append((st, n))
+    ok, why = False, "no statement of the loop body moves the popped transform into the part being built"
+    for st, n in keeps:
+        if st is n or (st.get("k") == "mcall" and st is n):
+            ok, why = True, "unconditional"
+        elif st.get("k") == "if" and st.get("e") is None:
+            c = show(st["c"], maxdepth=10)
+            pats = [show(m.get("pat"), maxdepth=8) for m in walk(st["c"]) if m.get("k") == "macro" and m.get("n") == "matches"]
+            alts = [show(a_, maxdepth=8) for m in walk(st["c"]) if m.get("k") == "macro" and m.get("n") == "matches" for a_ in pat_alts(m.get("pat") or {})]
+            if c.startswith("!") and len(pats) == 1 and alts and all(re.search(r"\bSelect\b", a_) for a_ in alts) and "&&" not in c and "||" not in c and m_guard_free(st["c"]):
+                ok, why = True, "all but Select"
+            else:
+                why = f"the transform is kept only under `{c}`; anything but `not a Select` drops transforms from the query"
+        else:
+            why = f"the keeping push is inside `{show(st, maxdepth=3)[:60]}`"
+    rep.check(ok, "pop-loop:keeps", "split_off_back: " + why, detail=why, line=loop["l"], **loc)
+    acc = show(keeps[0][1]["r"]) if keeps else None
+    # (c) the part is collected back to front: reversed exactly once, after the loop and after its Select was appended
+    if acc:
+        revs = [n for n in walk(f["body"]) if n.get("k") == "mcall" and n["m"] == "reverse" and show(n["r"]) == acc]
+        in_loop = [n for n in revs if any(n is x for x in walk(loop))]
+        sel_push = [n for n in walk(f["body"]) if is_push(n, acc) and "Select" in show(n["a"][0], maxdepth=8)]
+        ok = len(revs) == 1 and not in_loop and len(sel_push) == 1 and sel_push[0]["l"] < revs[0]["l"] and loop["l"] < sel_push[0]["l"]
+        rep.check(ok, "part:reversed-once", f"split_off_back collects `{acc}` back to front: one `.reverse()` after the loop and after the one push of its Select "
+                  f"(found {len(revs)} reverse(s), {len(in_loop)} inside the loop, {len(sel_push)} Select push(es))", line=loop["l"], **loc)
+    # (d) the rest of the pipeline is asked for exactly the required columns that this part cannot provide itself
+    avail = None
+    for n in walk(loop["body"]):
+        if n.get("k") == "mcall" and n["m"] == "insert" and len(n["a"]) == 1 and re.search(r"\.id$", show(n["a"][0])):
+            avail = show(n["r"])
+    neg_tests = [n for n in walk(f["body"]) if n.get("k") == "un" and n.get("op") == "!" and n["e"].get("k") == "mcall" and n["e"]["m"] == "contains" and avail and show(n["e"]["r"]) == avail]
+    pos_tests = [n for n in walk(f["body"]) if n.get("k") == "mcall" and n["m"] == "contains" and avail and show(n["r"]) == avail]
+    rep.check(avail is not None and len(neg_tests) == 1 and len(pos_tests) == 1, "rest:missing-is-required-minus-available",
+              f"split_off_back: the columns asked of the preceding sub-query are those `!{avail}.contains(..)` (found {len(neg_tests)} negated of {len(pos_tests)} membership test(s) on the set of columns this part provides): "
+              "asking for an available column selects it twice, not asking for a missing one leaves a dangling reference", line=loop["l"], **loc)
+    # (e) the rest gets its Select only when there is a rest
+    tail = [n for n in walk(f["body"]) if n.get("k") == "if" and re.fullmatch(r"!?" + re.escape(src) + r"\.is_empty\(\)", show(n["c"]))]
+    ok = False
+    for n in tail:
+        neg = show(n["c"]).startswith("!")
+        empty_b, rest_b = (n.get("e"), n["t"]) if neg else (n["t"], n.get("e"))
+        if empty_b is None or rest_b is None:
+            continue
+        e_txt, r_txt = show(empty_b, maxdepth=8), show_stmts(rest_b, maxdepth=10) if rest_b.get("k") == "block" else show(rest_b, maxdepth=10)
+        if "None" in e_txt and "push" not in e_txt and any(is_push(x, src) and "Select" in show(x["a"][0], maxdepth=8) for x in walk(rest_b)) and f"Some({src})" in r_txt:
+            ok = True
+    rep.check(ok, "rest:select-iff-rest", f"split_off_back returns `None` for an exhausted pipeline and `Some({src})` with a Select of the missing columns pushed otherwise", line=loop["l"], **loc)
+
+
+def r16(ctx, rep):
+    """`anchor_split` turns the front part of a pipeline into a relation of its own and re-anchors the back part on it. Every column that crosses
+    the cut gets one fresh id, is offered by the new relation under that id at the position it had, and every reference behind the cut is
+    redirected to it; the back part then reads from the new relation first."""
+    from guards import parents
+    rep.rule("C01.R16", "anchor_split: one fresh column id per column at the cut, registered as redirect old -> new and as column of the new relation in the same "
+             "iteration and unconditionally; the back part starts with From(new relation) and is passed through the redirector", floor=5)
+    syn = ctx.syn
+    f = syn.fn("pq::anchor::anchor_split", crate="prqlc")
+    loc = dict(file=f["file"], fn=f["path"])
+    # the loop over the columns at the cut: the one whose body generates a column id
+    loop = None
+    for n in walk(f["body"]):
+        if n.get("k") == "for" and any(x.get("k") == "mcall" and x["m"] == "gen" and show(x["r"]).endswith(".cid") for x in walk(n["body"])):
+            loop = n
+    if loop is None:
+        raise AnchorMissing("anchor_split: the loop that generates a column id per column at the cut")
+    old = [x["n"] for x in walk(loop["pat"]) if x.get("k") == "p_ident"]
+    new = None
+    top = loop["body"].get("s", [])
+    for st in top:
+        if st.get("k") == "local" and st.get("init") is not None and st["init"].get("k") == "mcall" and st["init"]["m"] == "gen" and show(st["init"]["r"]).endswith(".cid") and st["pat"].get("k") == "p_ident":
+            new = st["pat"]["n"]
+    rep.check(len(old) == 1 and new is not None, "cut:fresh-id-per-column", "anchor_split binds one fresh id (`<ctx>.cid.gen()`) per column at the cut, at the top level of the loop body", line=loop["l"], **loc)
+    if not (len(old) == 1 and new):
+        return
+    old = old[0]
+
+    def strip(t):
+        return t.replace("*", "").replace("&", "").replace(" ", "")
+    redirect = [st for st in top if st.get("k") == "mcall" and st["m"] == "insert" and len(st["a"]) == 2 and strip(show(st["a"][0])) == old and strip(show(st["a"][1])) == new]
+    all_redirect = [n for n in walk(loop["body"]) if n.get("k") == "mcall" and n["m"] == "insert" and len(n["a"]) == 2 and strip(show(n["a"][1])) == new and strip(show(n["a"][0])) == old]
+    rep.check(len(redirect) == 1 and len(all_redirect) == 1, "cut:redirect-recorded", f"anchor_split records `{old} -> {new}` once per column, unconditionally (found {len(redirect)} at the top level of the loop body, "
+              f"{len(all_redirect)} in all): a column without redirect keeps its old id behind the cut, where nothing defines it", line=loop["l"], **loc)
+    cols = [st for st in top if st.get("k") == "mcall" and st["m"] == "push" and len(st["a"]) == 1 and st["a"][0].get("k") == "tuple" and len(st["a"][0]["e"]) == 2 and strip(show(st["a"][0]["e"][1])) == new]
+    rep.check(len(cols) == 1, "cut:column-offered", f"anchor_split appends `(column, {new})` to the new relation's columns once per column, unconditionally and in order (found {len(cols)} push(es) at the top level of the loop body)",
+              line=loop["l"], **loc)
+    maps = show(redirect[0]["r"]) if redirect else None
+    colv = show(cols[0]["r"]) if cols else None
+    # both reach create_relation_instance
+    cri = [n for n in walk(f["body"]) if n.get("k") == "mcall" and n["m"] == "create_relation_instance"]
+    ok = len(cri) == 1 and maps and colv and maps in [show(a) for a in cri[0]["a"]] and re.search(r"\bcolumns(: " + re.escape(colv) + r")?\b", show(cri[0]["a"][0], maxdepth=8)) is not None
+    if ok:
+        d = dict((k_, v_) for k_, v_ in cri[0]["a"][0].get("f", [])) if cri[0]["a"][0].get("k") == "struct" else {}
+        ok = "columns" in d and show(d["columns"]) == colv
+    rep.check(ok, "cut:instance-gets-both", f"the relation instance is created from the collected columns (`{colv}`) and the redirects (`{maps}`)", line=loop["l"], **loc)
+    riid = None
+    par = parents(f["body"])
+    if cri:
+        p_ = par.get(id(cri[0]))
+        if p_ and p_.get("k") == "local" and p_["pat"].get("k") == "p_ident":
+            riid = p_["pat"]["n"]
+    ins = [n for n in walk(f["body"]) if n.get("k") == "mcall" and n["m"] == "insert" and len(n["a"]) == 2 and "From" in show(n["a"][1]) and riid and riid in show(n["a"][1])]
+    ok = len(ins) == 1 and lit_val(ins[0]["a"][0]) in (0, "0")
+    back = show(ins[0]["r"]) if ins else None
+    rep.check(ok, "back:from-first", f"the back part gets `From({riid})` inserted at position 0 (found {[show(i, maxdepth=6) for i in ins]})", line=f["l"], **loc)
+    t = tail_expr(f["body"])
+    tt = show(t, maxdepth=8) if t is not None else ""
+    rep.check(back is not None and re.fullmatch(r"CidRedirector::redirect_pipeline\(" + re.escape(back or "") + r", \w+\)", tt) is not None, "back:redirected",
+              f"anchor_split returns the back part passed through `CidRedirector::redirect_pipeline` (found `{tt}`)", line=f["l"], **loc)
+
+
+def r17(ctx, rep):
+    """The redirector that re-anchors the back part of a split: a column id is replaced by its redirect when it has one and left alone otherwise,
+    a re-anchored compute is registered in its *redirected* form, and every other transform goes through the generic folder."""
+    rep.rule("C01.R17", "CidRedirector: fold_cid = redirect or identity; a redirected compute is registered as redirected; other transforms are folded; "
+             "the redirects are those of the pipeline's first From", floor=5)
+    syn = ctx.syn
+    fc = next((f for f in syn.fns if f["crate"] == "prqlc" and f["file"].endswith("pq/anchor.rs") and f["name"] == "fold_cid" and f.get("self_short") == "CidRedirector"), None)
+    ft = next((f for f in syn.fns if f["crate"] == "prqlc" and f["file"].endswith("pq/anchor.rs") and f["name"] == "fold_transform" and f.get("self_short") == "CidRedirector"), None)
+    of = syn.fn_opt("CidRedirector::of_first_from", crate="prqlc")
+    if fc is None or ft is None or of is None:
+        raise AnchorMissing("CidRedirector::{fold_cid, fold_transform, of_first_from}")
+    loc = dict(file=fc["file"], fn=fc["path"])
+    params = [x["n"] for p_ in fc["params"] for x in walk(p_) if x.get("k") == "p_ident" and x["n"] != "self"]
+    cid = params[0] if params else None
+    gets = [n for n in walk(fc["body"]) if n.get("k") == "mcall" and n["m"] in ("get", "get_mut", "remove", "contains_key")]
+    ok_get = len(gets) == 1 and gets[0]["m"] == "get" and re.search(r"redirects?$", show(gets[0]["r"])) is not None and show(gets[0]["a"][0]).replace("&", "") == cid
+    rep.check(ok_get, "fold_cid:looks-up-argument", f"fold_cid looks its argument up in the redirect map, once, without removing the entry (found {[show(g, maxdepth=5) for g in gets]})", line=fc["l"], **loc)
+    # identity for unmapped ids: the parameter itself is the alternative (unwrap_or(cid) / None => cid / else { cid })
+    fallback = False
+    for n in walk(fc["body"]):
+        if n.get("k") == "mcall" and n["m"] in ("unwrap_or",) and len(n["a"]) == 1 and show(n["a"][0]) == cid:
+            fallback = True
+        if n.get("k") == "mcall" and n["m"] in ("unwrap_or_else", "map_or", "map_or_else") and any(show(tail_expr(a_["body"]) if a_.get("k") == "closure" and a_["body"].get("k") == "block" else (a_.get("body") if a_.get("k") == "closure" else a_)) == cid for a_ in n["a"][:1]):
+            fallback = True
+        if n.get("k") == "match":
+            for a_ in n["arms"]:
+                if show(a_["pat"]) == "None" and show(a_["body"] if a_["body"].get("k") != "block" else tail_expr(a_["body"])) == cid:
+                    fallback = True
+        if n.get("k") == "if" and n.get("e") is not None and n["c"].get("k") == "let":
+            e_ = n["e"]
+            if show(tail_expr(e_) if e_.get("k") == "block" else e_) == cid:
+                fallback = True
+    bad_ops = [show(n) for n in walk(fc["body"]) if n.get("k") in ("bin", "index") or (n.get("k") == "mcall" and n["m"] in ("unwrap", "expect", "unwrap_or_default"))]
+    rep.check(fallback and not bad_ops, "fold_cid:identity-when-unmapped", f"fold_cid returns the id itself when the map has no redirect for it (fallback to `{cid}` found: {fallback}; other operations: {bad_ops}): "
+              "columns defined behind the cut have no redirect and must keep their ids", line=fc["l"], **loc)
+    # fold_transform
+    loc = dict(file=ft["file"], fn=ft["path"])
+    ms = matches_of(ft["body"])
+    ok_default = ok_compute = False
+    detail = ""
+    for m in ms:
+        for a_ in m["arms"]:
+            heads = [last_seg(h) if isinstance(h, str) else h for h in (pat_head(x) for x in pat_alts(a_["pat"]))]
+            body = a_["body"]
+            if heads == ["Compute"]:
+                folded = [st for st in walk(body) if st.get("k") == "local" and st.get("init") is not None and "fold_compute(" in show(st["init"], maxdepth=6)]
+                reg = [n for n in walk(body) if n.get("k") == "mcall" and n["m"] == "register_compute"]
+                if len(folded) == 1 and len(reg) == 1 and folded[0]["pat"].get("k") == "p_ident":
+                    name = folded[0]["pat"]["n"]
+                    arg = show(reg[0]["a"][0]).replace(".clone()", "").replace("&", "")
+                    ret = show(tail_expr(body) if body.get("k") == "block" else body, maxdepth=6)
+                    ok_compute = arg == name and reg[0]["l"] > folded[0]["l"] and re.search(r"Compute\(" + re.escape(name) + r"\)", ret) is not None
+                    detail = f"registers `{arg}`, returns `{ret}`"
+                elif not reg and len(folded) == 0:
+                    detail = "no registration"
+            elif any(x.get("k") == "p_wild" or (x.get("k") == "p_ident" and not x["n"][0].isupper()) for x in pat_alts(a_["pat"])):
+                t = show(body if body.get("k") != "block" else tail_expr(body), maxdepth=6)
+                ok_default = re.fullmatch(r"fold_transform\(self, \w+\)", t) is not None
+    rep.check(ok_compute, "fold_transform:compute-registered-redirected", "CidRedirector::fold_transform folds a Compute first and registers and returns the folded one "
+              f"({detail or 'Compute arm not found'}): the column declaration behind the cut must speak of the new ids", line=ft["l"], **loc)
+    rep.check(ok_default, "fold_transform:others-folded", "every other transform goes through the generic `fold_transform(self, ..)`", line=ft["l"], **loc)
+    # of_first_from: the redirects of the relation instance of the pipeline's *first* transform
+    t = show_stmts(of["body"], maxdepth=10)
+    ok = re.search(r"\.first\(\)\?\.as_from\(\)\?", t) is not None and ".cid_redirects" in t and ".last()" not in t
+    rep.check(ok, "of_first_from:first", "CidRedirector::of_first_from reads the redirects of the relation the pipeline starts from (`.first()?.as_from()?`)", file=of["file"], line=of["l"], fn=of["path"])
+
+
 def run(ctx, rep):
-    for r in (r1, r2, r3, r4, r5, r6, r7, r8, r9, r10, r11, r12, r13, r14):
+    for r in (r1, r2, r3, r4, r5, r6, r7, r8, r9, r10, r11, r12, r13, r14, r15, r16, r17):
         rep.guard(r, ctx)
